@@ -25,8 +25,12 @@ Lemma on_settings_shape s cmd id status :
   let s1 := fst (fst (on_settings s cmd id status)) in
   length (s_cfgs s1) = length (s_cfgs s) /\ (s_blocks s1 = s_blocks s \/ s_blocks s1 = []).
 Proof.
-  cbn zeta. unfold on_settings, assign_added, assign_started.
-  walk; cbn [fst snd s_cfgs s_blocks set_toc set_blocks]; rewrite ?put_len; auto.
+  cbn zeta. rewrite on_settings_split. destruct (reset_applies s cmd).
+  - pose proof (forget_blocks_shape (s_blocks s) s) as P. cbv zeta in P.
+    destruct (forget_blocks s (s_blocks s)) as [s1 o1]. cbn [fst snd] in *. destruct P as (A & _).
+    cbn [s_cfgs s_blocks set_toc set_blocks]. auto.
+  - unfold on_settings_old, assign_added, assign_started.
+    walk; cbn [fst snd s_cfgs s_blocks set_toc set_blocks]; rewrite ?put_len; auto.
 Qed.
 
 Lemma add_config_shape s h : valid_h s h = true ->
@@ -113,8 +117,12 @@ Lemma on_settings_static s cmd id status h :
   let s1 := fst (fst (on_settings s cmd id status)) in
   c_vars (get s1 h) = c_vars (get s h) /\ c_dfa (get s1 h) = c_dfa (get s h) /\ c_cf (get s1 h) = c_cf (get s h).
 Proof.
-  cbn zeta. unfold on_settings, assign_added, assign_started.
-  walk; cbn [fst snd]; put_cases; auto.
+  cbn zeta. rewrite on_settings_split. destruct (reset_applies s cmd).
+  - pose proof (forget_blocks_static (s_blocks s) s h) as P. cbv zeta in P.
+    destruct (forget_blocks s (s_blocks s)) as [s1 o1]. cbn [fst snd] in *.
+    rewrite get_set_toc, get_set_blocks. tauto.
+  - unfold on_settings_old, assign_added, assign_started.
+    walk; cbn [fst snd]; put_cases; auto.
 Qed.
 
 Lemma create_static s h0 h :
